@@ -15,6 +15,7 @@ package redis
 //@ ghost var pending int        // sockets accepted by an accept loop and neither closed nor handed to a connection goroutine
 //@ ghost var accept_failed bool // the last Accept of the accept loop returned an error
 //@ ghost var sel_id int          // the database id the connection had when its last request (or its creation) was done with it
+//@ ghost var quit_req bool       // the last request handled on this connection was QUIT (its handling returned ErrQuit)
 //@ ghost var authed bool        // an AUTH carrying exactly the configured password has succeeded on this connection
 
 //@ spec func srvOK(s ref) bool = s != nil && s.ServerConfig != nil && s.ServerConfig.Config != nil && s.ServerConfig.Config.params != nil && s.AuthManager != nil && authsOK(s.AuthManager) && s.ConnManager != nil && s.ConnManager.m != nil && s.ConnManager.mutex != nil && s.Tracer != nil && s.commandExecutors != nil && s.systemCommandHandler != nil
@@ -25,6 +26,7 @@ package redis
 //@ func newConnWith
 //@ assigns cur_uuid, alloc, clock_now
 //@ defines sel_id: result.id
+//@ defines quit_req: false
 //@ ensures {C13,C08} result != nil && fresh(result) && result.id == 0 && !result.authrized && result.username == "" && result.password == "" && !result.hasPassword
 //@ ensures {C19} !result.isClosed && result.Conn == conn && result.tlsState == tlsState && result.Context == nil && result.uuid == cur_uuid
 
@@ -183,6 +185,7 @@ package redis
 //@ func (*Server).handleMessage
 //@ requires srvOK(server) && conn != nil && msg != nil && conn.Context != nil && span_depth >= 0 && root_open == 1
 //@ defines sel_id: conn.id
+//@ defines quit_req: errors.Is(err, ErrQuit)
 //@ requires {C08} server.userCommandHandler != nil ==> true
 //@ assigns proto.Array.index, conn.id, conn.authrized, conn.username, conn.password, conn.hasPassword, comp:MD|Str|Str, comp:MV|Str|Str, H_*, A_calls, A_fail, span_depth, authed, clock_now, alloc
 //@ ensures {C20} span_depth == old(span_depth)
@@ -214,6 +217,8 @@ package redis
 //@   invariant {C08} handlerConn.authrized ==> (!isPasswdRequired || authed)
 // between two requests nothing but the request handling itself touches the selected database
 //@   invariant {C13} handlerConn.id == sel_id
+// no request is read after QUIT: the loop is left in the iteration that handled it
+//@   invariant {C03} !quit_req
 //@   entry_assert {C09} tlsState != nil ==> A_fail == old(A_fail)
 //@   invariant srvOK(server) && parser != nil && parser.reader != nil && 0 <= S_pos && S_pos <= S_end
 //@   diverges
